@@ -72,6 +72,18 @@ def leaves_np(t):
     return [t]
 
 
+def assign_inplace(dst, src):
+    """refill the NumPy leaves of `dst` with the values of `src` without creating new objects"""
+    if isinstance(dst, dict):
+        for k in dst:
+            assign_inplace(dst[k], src[k])
+    elif isinstance(dst, tuple):
+        for d, s_ in zip(dst, src):
+            assign_inplace(d, s_)
+    else:
+        np.copyto(dst, np.asarray(src))
+
+
 def to_jax(t):
     return tree_map_np(lambda x: jnp.asarray(x), t)
 
@@ -146,6 +158,8 @@ class Exec:
         self.n_rollouts2 = 0
         self.n_windows = 0
         self.aux_seq = 0
+        self.fns = {}  # reuse: signature -> [function returned by rollout/repeat, mutable aux holder]
+        self.n_reused = 0
 
     def claim(self, cid, ok, msg, key):
         self.res.true(cid, ok, key=key, msg=msg)
@@ -191,13 +205,31 @@ class Exec:
                 traj.append(x)
             # ---- real
             try:
-                if k == "rollout":
+                sig = "%s|%d|%s|%s|%s|%s|%d" % (k, n, inc, takes_aux, const, aux_kind, kk)
+                slot = self.fns.get(sig) if op.get("reuse") else None
+                if slot is not None:
+                    fn = slot[0]  # the SAME function object returned by an earlier rollout/repeat call
+                    self.n_reused += 1
+                elif k == "rollout":
                     fn = ex.rollout(f, n, include_init=inc, takes_aux=takes_aux, constant_aux=const)
                 elif k == "repeat":
                     fn = ex.repeat(f, n, takes_aux=takes_aux, constant_aux=const)
                 else:
                     fn = ex.rollout(ex.repeat(f, kk), n, include_init=inc)
-                real = fn(to_jax(self.state), to_jax(aux)) if takes_aux else fn(to_jax(self.state))
+                if op.get("reuse") and takes_aux:
+                    # the aux is one mutable container (NumPy buffers in the same dict / tuple) that is refilled in
+                    # place between calls, as a forcing buffer would be; the same object is passed every time
+                    if slot is None or slot[1] is None:
+                        holder = tree_map_np(lambda x: np.array(x), aux)
+                    else:
+                        holder = slot[1]
+                        assign_inplace(holder, aux)
+                    self.fns[sig] = [fn, holder]
+                    real = fn(to_jax(self.state), holder)
+                else:
+                    if op.get("reuse"):
+                        self.fns[sig] = [fn, None]
+                    real = fn(to_jax(self.state), to_jax(aux)) if takes_aux else fn(to_jax(self.state))
             except Exception as e:  # noqa: BLE001
                 self.claim(k + ":raises", False, "%s: %s" % (type(e).__name__, str(e)[:200]), key + ":raises:" + type(e).__name__)
                 return
@@ -331,6 +363,13 @@ def machine_runner(prop, sub, stratum, tier, seed, stats, open_known):
         def rollout(self, n, include_init, takes_aux, constant_aux, aux_kind, aux_seed):
             self._do(dict(op="rollout", n=n, include_init=include_init, takes_aux=takes_aux, constant_aux=constant_aux, aux_kind=aux_kind, aux_seed=aux_seed))
 
+        # the function returned by rollout / repeat is kept and called again later in the history (few distinct
+        # signatures so that repeats are frequent), with an aux container that is refilled in place
+        @rule(which=st.sampled_from(["rollout", "repeat"]), n=st.sampled_from([2, 3]), takes_aux=st.sampled_from([True, True, False]),
+              constant_aux=st.booleans(), aux_kind=st.sampled_from(["scalar", "same"]), aux_seed=st.integers(0, 10**6))  # fmt: skip
+        def reused_function(self, which, n, takes_aux, constant_aux, aux_kind, aux_seed):
+            self._do(dict(op=which, n=n, include_init=False, takes_aux=takes_aux, constant_aux=constant_aux, aux_kind=aux_kind, aux_seed=aux_seed, reuse=True))
+
         @rule(n=st.integers(0, 12), takes_aux=st.booleans(), constant_aux=st.booleans(), aux_kind=st.sampled_from(["scalar", "same"]), aux_seed=st.integers(0, 10**6))
         def repeat(self, n, takes_aux, constant_aux, aux_kind, aux_seed):
             self._do(dict(op="repeat", n=n, takes_aux=takes_aux, constant_aux=constant_aux, aux_kind=aux_kind, aux_seed=aux_seed))
@@ -358,6 +397,8 @@ def machine_runner(prop, sub, stratum, tier, seed, stats, open_known):
                     res.tag("has_n=0")
                 if any(o.get("takes_aux") and not o.get("constant_aux", True) for o in self.history):
                     res.tag("has_aux_sequence")
+                if self.e.n_reused:
+                    res.tag("has_reused_function")
                 stats.record(case, res)
                 for f in res.fails:
                     kf = is_known(prop, f, open_known)
